@@ -377,12 +377,12 @@ func commuteCheck(mc *modeCtx, fi *FuncInfo, s *ast.RangeStmt, key string) (item
 	for k := range ef.regions {
 		cmpKeys = append(cmpKeys, k)
 	}
-	for v := range ef.assigned {
+	for _, v := range sortedVars(ef.assigned) {
 		if k, _, ok := fr.lookupVar(v); ok && v.Pos() < s.Pos() {
 			cmpKeys = append(cmpKeys, k)
 		}
 	}
-	for v := range ef.refVars {
+	for _, v := range sortedVars(ef.refVars) {
 		if p, ok := fr.lookupRefParam(v); ok {
 			if pv, ok := p.(PVar); ok {
 				cmpKeys = append(cmpKeys, pv.key)
